@@ -76,6 +76,7 @@ type Interp struct {
 	orderDev  bool   // a non-default iteration order was taken on this path
 	rangeCount int
 	releasedUse bool
+	libDepth    int
 	poolMonitor bool // use-after-Put is a violation (C13, C14)
 	runningPureInit bool
 	pureDone        map[*ssa.Package]bool
@@ -199,7 +200,9 @@ func (in *Interp) noteWrite(o *Obj) {
 	if o != nil {
 		in.noteAccess(o)
 	}
-	if o == nil || !in.inLib() || o.PoolOwned {
+	// writes by harness code count when the harness was called back by the
+	// library (a reader filling the library's buffer)
+	if o == nil || !(in.inLib() || in.libDepth > 0) || o.PoolOwned {
 		return
 	}
 	if in.initMark > 0 && (o.Global || o.ID <= in.initMark) {
@@ -403,7 +406,15 @@ func (in *Interp) callFunction(fn *ssa.Function, args []Val, env []Val) Val {
 		panic(pathEnd{"budget", "stack@" + in.entryWhere() + "|call depth exceeded"})
 	}
 	in.stack = append(in.stack, fr)
-	defer func() { in.stack = in.stack[:len(in.stack)-1] }()
+	if fr.lib {
+		in.libDepth++
+	}
+	defer func() {
+		in.stack = in.stack[:len(in.stack)-1]
+		if fr.lib {
+			in.libDepth--
+		}
+	}()
 	fr.block = fn.Blocks[0]
 	for {
 		res, done := in.runBlock(fr)
